@@ -30,6 +30,18 @@ type standinInfo struct {
 }
 
 var standinTable = map[string][]struct{ name, file, pkgdir, test, stands, boundQuick, boundThorough string }{
+	"C03": {{
+		name: "url-key-vs-rfc3986", file: "c03_urlkey_test.go.txt", pkgdir: "internal", test: "TestGovcStandinC03",
+		stands:        "makeURLKey over what net/url delivers (url.Parse, ResolveReference, EscapedPath - assumed shape contracts only): two URLs share a key exactly when an independent RFC 3986 6.2.2-6.2.3 reference normaliser (no net/url) gives them the same normal form",
+		boundQuick:    "3 scheme spellings x 2 userinfo x 13 hosts (case, IPv4, IPv6 literals, non-ASCII and invalid UTF-8 bytes) x 5 ports x 29 paths (dot segments, escapes of unreserved / reserved / non-ASCII bytes, stray %) x 17 queries, every URL url.Parse accepts (172,380)",
+		boundThorough: "3 scheme spellings x 3 userinfo x 15 hosts x 6 ports x 29 paths x 17 queries x 2 fragments, every URL url.Parse accepts (716,040)",
+	}},
+	"C04": {{
+		name: "header-value-normalisation", file: "c04_normalize_test.go.txt", pkgdir: "internal", test: "TestGovcStandinC04",
+		stands:        "normalizeHeaderValue identifies two values of a nominated request header only up to whitespace, list order and ASCII case (never two values that differ otherwise, e.g. in a byte that is not valid UTF-8), and is idempotent",
+		boundQuick:    "8 fields (one per normalisation class) x every value of length <= 4 over {a, A, b, ',', SP, HTAB, '*', 0xff, 0xfe} (7381 values)",
+		boundThorough: "8 fields (one per normalisation class) x every value of length <= 6 over {a, A, b, ',', SP, HTAB, '*', 0xff, 0xfe} (597871 values)",
+	}},
 	"C05": {{
 		name: "entry-round-trip", file: "c05_roundtrip_test.go.txt", pkgdir: "internal", test: "TestGovcStandinC05",
 		stands:        "Response.MarshalBinary (httputil.DumpResponse) followed by ParseResponse (http.ReadResponse) reproduces status, every header field value and the exact body bytes; the response handed to MarshalBinary still delivers its body",
